@@ -399,7 +399,7 @@ Definition do_step (x : step) (s : state) : option state :=
   match x with
   | SValidate =>
     match st_settings s with
-    | Some (_ :: _ as d) => if validate_init_settings d then Some s else None
+    | Some ((_ :: _) as d) => if validate_init_settings d then Some s else None
     | _ => Some s                                   (* "if settings:" - None and {} are not validated *)
     end
   | SMakeConfig =>
@@ -522,7 +522,7 @@ Definition accept_cli (pwlen : option Z) (args : list string) : option accepted 
 
 (* add-key: settings validation and KDF binding for the new key, given the repository's cipher sizes *)
 Definition add_key_accept (pwlen : option Z) (key_bytes : Z) (settings : option dict) : option (adapter * dict) :=
-  let ok := match settings with Some (_ :: _ as d) => validate_add_key_settings d | _ => true end in
+  let ok := match settings with Some ((_ :: _) as d) => validate_add_key_settings d | _ => true end in
   if negb ok then None else
   match pwlen with
   | None => None
